@@ -73,6 +73,7 @@ static const uint32_t kLiveMagic = 0x11FE0000u;
 static const uint32_t kDeadMagic = 0xDEAD0000u;
 static const uint32_t kMagicMask = 0xFFFF0000u;
 static const uint32_t kMovedFrom = 1u;
+static const int kMovedFromKey = -31337;
 
 inline void ledger_reset() {
   MonScope m;
@@ -189,6 +190,8 @@ struct Tracked {
     pay = o.pay;
     born(EV_MCTOR);
     o.flags |= kMovedFrom;
+    o.key = kMovedFromKey;  // like std::string: the value is gone, a later read of the source shows up in the value oracles
+    o.pay = 0xDEADu;
     o.touch(EV_MCTOR);
   }
   Tracked &operator=(const Tracked &o) {
@@ -224,6 +227,8 @@ struct Tracked {
       count(EV_MASSIGN);
     }
     o.flags |= kMovedFrom;
+    o.key = kMovedFromKey;
+    o.pay = 0xDEADu;
     if ((o.flags & kMagicMask) == kLiveMagic) o.touch(EV_MASSIGN);
     return *this;
   }
